@@ -91,7 +91,7 @@ def run(ctx):
         return
     shutil.rmtree(WORK, ignore_errors=True)
     os.makedirs(WORK, exist_ok=True)
-    ncases = 40 if ctx.quick else 400
+    ncases = 120 if ctx.quick else 1200
     for ci in range(ncases):
         dt = CLI_DT[ci % len(CLI_DT)]
         n = rng.choice([1, 2, 3, 7, 50, 333, 1000, 1001, 3000])
